@@ -4,6 +4,7 @@ import (
 	"fmt"
 	"math/rand/v2"
 	"strconv"
+	"strings"
 
 	"github.com/high-moctane/mocrelay"
 )
@@ -26,11 +27,19 @@ type StoreGen struct {
 	UniqueTimes bool
 	// HostileContent uses hostile strings as content.
 	HostileContent bool
+	// UniquePerAddress never gives two versions of one address the same created_at
+	// (the statements leave that tie open).
+	UniquePerAddress bool
+	// BigEvery > 0: one content in BigEvery is a ~100 kB hostile string (with NUL bytes).
+	BigEvery int
+	BigMade  int
 
 	Offered []*mocrelay.Event // everything returned by Next so far
 	future  []*mocrelay.Event // generated, referenced by a deletion request, not offered yet
 	n       int
 	usedAt  map[int64]bool
+
+	usedAddrAt map[string]bool
 }
 
 func NewStoreGen(r *rand.Rand, authors int, timeRange int64) *StoreGen {
@@ -69,6 +78,10 @@ func (g *StoreGen) at() int64 {
 
 func (g *StoreGen) content() string {
 	g.n++
+	if g.BigEvery > 0 && g.R.IntN(g.BigEvery) == 0 {
+		g.BigMade++
+		return strings.Repeat(HostileString(g.R, 20)+"\x00<&>\u2028 ", 2000+g.R.IntN(3000)) + "#" + strconv.Itoa(g.n)
+	}
 	if g.HostileContent && g.R.IntN(2) == 0 {
 		return HostileString(g.R, 30) + "#" + strconv.Itoa(g.n)
 	}
@@ -116,6 +129,17 @@ func (g *StoreGen) fresh() *mocrelay.Event {
 		e.Kind = Pick(g.R, sgEphemeralKinds)
 	}
 	g.extraTags(e)
+	if g.UniquePerAddress {
+		if a := Address(e); a != "" {
+			if g.usedAddrAt == nil {
+				g.usedAddrAt = map[string]bool{}
+			}
+			for g.usedAddrAt[a+"@"+strconv.FormatInt(e.CreatedAt, 10)] {
+				e.CreatedAt++
+			}
+			g.usedAddrAt[a+"@"+strconv.FormatInt(e.CreatedAt, 10)] = true
+		}
+	}
 	return Seal(e)
 }
 
